@@ -3,3 +3,4 @@
 #include "qm_core.h"
 #include "qm_thread.h"
 #include "qm_regex.h"
+#include "qm_json.h"
